@@ -246,7 +246,7 @@ func (n gnode) refCond() string {
 		raw = ex.ref()
 	}
 	p := pad(n.NoPad)
-	s := n.Kw + p + stackage.ComparisonOperator(n.Op).String() + p + refEncap(encModel[n.Enc], raw)
+	s := n.Kw + p + refOpText(stackage.ComparisonOperator(n.Op)) + p + refEncap(encModel[n.Enc], raw)
 	if n.Paren {
 		s = "(" + p + s + p + ")"
 	}
@@ -308,7 +308,7 @@ func c02Cfgs(kind string, full bool) []gnode {
 	delims := []string{""}
 	if kind == "LIST" {
 		syms = []string{""}
-		delims = []string{"", ",", "é"}
+		delims = []string{"", ",", "é", " "}
 	}
 	encs := []int{0, 1, 2, 3}
 	if !full {
@@ -362,7 +362,7 @@ func c02Trees(c *Ctx) []gnode {
 		cond("e", 1, lf(""))}
 	var trees []gnode
 	// (0) every Go numeric kind, bool and a few float shapes as leaves and as Condition expressions
-	for _, v := range []any{int8(-8), int16(-300), int32(70000), int64(-1 << 40), uint(7), uint8(200), uint16(65535), uint32(1 << 31), uint64(1 << 63), float32(1.5), float32(1e10), 1e21, 1e-7, -0.5, 100000.0, 1234567.0,
+	for _, v := range []any{int8(-8), int16(-300), int32(70000), int64(-1 << 40), uint(7), uint8(200), uint16(65535), uint32(1 << 31), uint64(1 << 63), float32(1.5), float32(1e10), float32(1.1), float32(0.1), float32(-9.378), 0.1, 1.1, 1e21, 1e-7, -0.5, 100000.0, 1234567.0,
 		complex64(complex(1, -2)), complex(0.5, 3), false, 0, -12} {
 		for _, k := range kinds {
 			trees = append(trees, gnode{T: "stack", Kind: k, Kids: []gnode{{T: "leaf", V: v}, lf("t")}}, gnode{T: "stack", Kind: k, NoPad: true, Enc: 1, Kids: []gnode{{T: "leaf", V: v}}})
